@@ -73,7 +73,7 @@ def run(prop, tier, seed):
             rc = 1
         for cause, (k, idxs) in known.items():
             log("KNOWN-FINDING: property=%s cause=%s %s (%d programs, e.g. kqstress seed %d program %d)" % (prop, cause, k["text"], len(idxs), seed, idxs[0]))
-        evf = os.path.join(HERE, "evidence", prop + ".json")
+        evf = engines.evidence_path(prop)
         if os.path.exists(evf):
             ev = json.load(open(evf))
             ev["coverage"]["kqueue_concurrent_programs"] = dict(programs=progs, causes={c: len(i) for c, i in causes.items()}, linearizability_note=lin_note,
